@@ -26,6 +26,8 @@ T = {
  'C03-s1': ('C03', 'two modifications in sequence: a pass that marks a Loop / Conditional INVALID_CHILDREN (body edit), then a substitution that changes the header expressions of the same node', 'missed (single edits only); caught after edit sequences (body statement then loop bounds / IF conditions, both orders) were added: 93 violations', 'caught-after-strengthening'),
  'C01-s1': ('C01', 'REAL / INT conversion with the kind given positionally (real(n, dp)): the kind is dropped by the frontend', 'missed (both sides of the round-trip obligation are parsed by the same frontend and reals are exact); caught after every self-validation input is also replayed end to end with exact output comparison (gfortran(text) vs gfortran(fgen(parse(text)))) and positional-kind casts were added to the corpus', 'caught-after-strengthening'),
  'C18-s1': ('C18', 'symbol imported via USE from a module whose definition is known (type.module set): the link is dropped by SymbolAttributes.__getstate__', 'missed (behaviour unchanged); caught after the attribute-by-attribute type fingerprint comparison of original and unpickled symbol tables (same-types cases)', 'caught-after-strengthening'),
+ 'C27-s1': ('C27', 'if/else (or else-if) inside a loop where the else side reads a variable written in the if-branch of the same conditional: it drops out of uses_symbols and loop_carried_dependencies', 'caught at once by ./check C26 (uses_symbols of the Conditional); missed by C27 until loops carrying values through different branches (if/else, else-if, nested if, WHERE/ELSEWHERE, SELECT CASE) were added to the routine corpus', 'caught-after-strengthening'),
+ 'C35-s1': ('C35', 'REAL(...) conversion of an integer quotient: cgen drops the parentheses around the cast operand, (double) iv / 2 instead of (double) (iv / 2)', 'missed (no template had a conversion of an integer quotient); caught after cast-of-int-quotient / cast-of-int-expressions / cast-of-array-element-quotient / cast-of-mod templates (7.0 vs 7.4166...)', 'caught-after-strengthening'),
  'C37-s1': ('C37', 'kernel temporary declared with upper-case letters, written before and read after a nested kernel call (vector pipelines)', 'missed; caught after the temp-across-nested-call call tree and upper-case spelling variants were added', 'caught-after-strengthening'),
 }
 for name, (prop, needs, verdict, status) in T.items():
